@@ -212,7 +212,11 @@ func collectEntryNodes(node Node, m map[reflect.Type]struct{}) {
 			collectEntryNodes(el, m)
 		}
 	case Not:
-		collectEntryNodes(node.Node, m)
+		// A negation matches every node its operand doesn't match, so any
+		// kind of node can start a match.
+		for _, T := range allTypes {
+			m[T] = struct{}{}
+		}
 	case Binding:
 		collectEntryNodes(node.Node, m)
 	case Nil, nil:
@@ -235,6 +239,8 @@ var allTypes = []reflect.Type{
 	reflect.TypeFor[*ast.RangeStmt](),
 	reflect.TypeFor[*ast.AssignStmt](),
 	reflect.TypeFor[*ast.IndexExpr](),
+	reflect.TypeFor[*ast.IndexListExpr](),
+	reflect.TypeFor[*ast.Ellipsis](),
 	reflect.TypeFor[*ast.Ident](),
 	reflect.TypeFor[*ast.ValueSpec](),
 	reflect.TypeFor[*ast.GenDecl](),
@@ -281,7 +287,7 @@ var nodeToASTTypes = map[reflect.Type][]reflect.Type{
 	reflect.TypeFor[List]():                    {reflect.TypeFor[*ast.BlockStmt](), reflect.TypeFor[*ast.FieldList]()},
 	reflect.TypeFor[Builtin]():                 {reflect.TypeFor[*ast.Ident]()},
 	reflect.TypeFor[Object]():                  {reflect.TypeFor[*ast.Ident]()},
-	reflect.TypeFor[Symbol]():                  {reflect.TypeFor[*ast.Ident](), reflect.TypeFor[*ast.SelectorExpr]()},
+	reflect.TypeFor[Symbol]():                  {reflect.TypeFor[*ast.Ident](), reflect.TypeFor[*ast.SelectorExpr](), reflect.TypeFor[*ast.IndexExpr](), reflect.TypeFor[*ast.IndexListExpr]()},
 	reflect.TypeFor[Any]():                     allTypes,
 	reflect.TypeFor[RangeStmt]():               {reflect.TypeFor[*ast.RangeStmt]()},
 	reflect.TypeFor[AssignStmt]():              {reflect.TypeFor[*ast.AssignStmt]()},
